@@ -61,6 +61,7 @@ var verifDir = func() string {
 type propCfg struct {
 	World       string
 	RaceWorld   string // world run in a -race build next to the functional batch ("" = none)
+	ExtraWorld  string // a second functional world that exercises the same mechanism; two of the workers run it
 	Tags        string
 	Level       string
 	QuickWall   float64
@@ -83,7 +84,7 @@ var props = map[string]propCfg{
 	"C10": {World: "diode", RaceWorld: "dioderace", Level: "exploration", QuickWall: 20, ThoroughSec: 600, Rule: ruleCommon},
 	"C11": {World: "diode", Level: "exploration", QuickWall: 20, ThoroughSec: 600, Rule: ruleCommon},
 	"C12": {World: "diode", Level: "exploration", QuickWall: 20, ThoroughSec: 600, Rule: ruleCommon},
-	"C05": {World: "c05", Level: "exploration", QuickWall: 25, ThoroughSec: 600, Rule: ruleCommon},
+	"C05": {World: "c05", ExtraWorld: "c18", Level: "exploration", QuickWall: 25, ThoroughSec: 600, Rule: ruleCommon},
 	"C13": {World: "c13", Level: "exploration", QuickWall: 15, ThoroughSec: 300, Rule: ruleCommon},
 	"C14": {World: "c14", Level: "fault_enumeration", QuickWall: 15, ThoroughSec: 300, Rule: ruleCommon + " Faults: per (destination, event) outcome in {ok, error, short write}, sampled (not enumerated) over 1-4 destinations x 1-6 events x 1-2 tasks."},
 	"C15": {World: "c15", Level: "exploration", QuickWall: 20, ThoroughSec: 600, Rule: ruleCommon},
@@ -636,7 +637,11 @@ func check(id, tier string, workers int, wallOverride float64) int {
 			defer wg.Done()
 			from := i * 100_000_000
 			hf := filepath.Join(scratch, fmt.Sprintf("hashes.%d", i))
-			args := []string{"-world", cfg.World, "-prop", id, "-seed", strconv.FormatUint(seed, 10),
+			wname := cfg.World
+			if cfg.ExtraWorld != "" && i >= workers-2 && workers > 2 {
+				wname = cfg.ExtraWorld
+			}
+			args := []string{"-world", wname, "-prop", id, "-seed", strconv.FormatUint(seed, 10),
 				"-from", strconv.Itoa(from), "-to", strconv.Itoa(from + 99_000_000), "-wall", fmt.Sprintf("%.1f", wall), "-hashes", hf}
 			if tier == "thorough" && i%2 == 1 {
 				// half of the thorough workers explore wider bounds
@@ -906,15 +911,15 @@ func check(id, tier string, workers int, wallOverride float64) int {
 // for a clean batch to mean something (reported as "unreached" in the evidence).
 var wantProbes = map[string][]string{
 	"C10": {"cas_failed", "collision_retry", "alert", "sink_stall_forever", "reentrant_alert_write", "pool_reuse_other_task"},
-	"C11": {"cas_failed", "collision_retry", "alert", "sink_slow"},
+	"C11": {"cas_failed", "collision_retry", "alert", "sink_slow", "two_closers", "fatal_filtered", "sink_fails_from_now_on"},
 	"C12": {"cas_failed", "cond_broadcast_no_waiter", "cond_broadcast_woke", "mutex_contended"},
 	"C05": {"pool_reuse_other_task", "pool_miss", "open_events_overlap", "pool_non_lifo", "late_update_context"},
 	"C13": {"linearizable_histories", "clock_backwards", "clock_jump_forward", "clock_frozen", "sampling_disabled_phase", "level_rejected_event"},
-	"C14": {"dst_error", "dst_short_write"},
+	"C14": {"dst_error", "dst_short_write", "sync_wrapped_destination", "sync_wrapped_fanout"},
 	"C15": {"linearizable_histories", "mutex_contended", "pool_reuse", "dst_blocks"},
 	"C17": {"crash_point", "bit_flip", "header_overwrite", "huge_length", "zeroed_range", "dropped_range", "duplicated_tail", "garbage_tail", "read_error"},
-	"C18": {"rw_short_write", "rw_error", "rw_partial_then_error", "pool_reuse_other_task"},
-	"C06": {"hook_discards_event", "pool_reuse_other_task", "pool_miss", "pool_drop", "sink_overlap", "two_events_open", "sink_blocks_in_write", "sink_error", "global_level_flip", "mutex_contended"},
+	"C18": {"handler_panics", "base_context_logger", "rw_short_write", "rw_error", "rw_partial_then_error", "pool_reuse_other_task"},
+	"C06": {"derived_in_task", "sink_short_write", "hook_discards_event", "pool_reuse_other_task", "pool_miss", "pool_drop", "sink_overlap", "two_events_open", "sink_blocks_in_write", "sink_error", "global_level_flip", "mutex_contended"},
 }
 
 func writeEvidence(id, tier string, seed uint64, cfg propCfg, st Stats, distinct, nviol int, wallS, buildS float64, workers int, realC, stubC, unreached []string, nknown int, raceRuns int, raceSteps int64, raceWorkers int) {
